@@ -28,6 +28,9 @@ def describe(f):
 
 
 def run(ctx):
+    if ctx.quick:
+        # short JVM runs: C1-only JIT and two GC threads halve CPU and wall time on a loaded machine
+        os.environ.setdefault("JAVA_TOOL_OPTIONS", "-XX:TieredStopAtLevel=1 -XX:ParallelGCThreads=2")
     if ctx.only is None:
         vlib.tlc_mc(ctx, "MsgBuffer_MC", ctx.pick("MsgBuffer_MC_quick.cfg", "MsgBuffer_MC.cfg"), coverage=True,
                     allow_zero=("MCSendOrig", "SendAsOriginallyCoded"))
